@@ -14,7 +14,12 @@
 (* definitions say and never reads outside the stack / past a string terminator.             *)
 (* Version = "pinned" is the algorithm as found (accepts an entry whose name is a proper     *)
 (* prefix of the key - TLC exhibits it, the C07 check confirmed it on the real code);        *)
-(* Version = "fixed" is the algorithm after the repair.                                      *)
+(* Version = "fixed1" after the first repair (whole key must match); TLC still rejects it: a *)
+(* key containing '=' ("A=") answers from the entry "A==y" although no NAME contains '=';     *)
+(* Version = "fixed" is the algorithm after the second repair (such a key matches nothing).   *)
+(* Version = "noterm" = "fixed" without the terminator test of match_up_to_str (an            *)
+(* independent mutant): a key with an embedded NUL then matches ACROSS two adjacent strings   *)
+(* - TLC shows the read past the terminator (ReadsInBounds) and the wrong answer.             *)
 EXTENDS Integers, Sequences, FiniteSets
 
 EQ == 61   \* '='
@@ -103,13 +108,21 @@ vars == <<argv, env, aux, key, fn, st, heap, pc, argc, argvp, envp, off, akey, c
 kase == <<argv, env, aux, key, fn, st, heap>>
 
 EnvBlocks == UNION {[1..k -> Entries] : k \in 0..MaxEnv}
+\* keys made from the block itself: a whole entry "NAME=value"; an entry, a NUL and the name of the NEXT entry
+\* (the strings lie back to back in memory); an entry's name followed by NUL
+NameOrAll(e) == IF HasEq(e) THEN Name(e) ELSE e
+DerivedKeys(b) == {b[k] : k \in 1..Len(b)}
+                  \cup {b[k] \o <<0>> \o NameOrAll(b[k + 1]) : k \in 1..(Len(b) - 1)}
+                  \cup {NameOrAll(b[k]) \o <<0>> : k \in 1..Len(b)}
 
 Init ==
     /\ fn \in Fns
     /\ argv \in Argvs
     /\ env \in EnvBlocks
     /\ aux \in Auxvs
-    /\ key \in (IF fn \in {"var", "var_unix"} THEN Keys ELSE {<<>>})
+    /\ key \in (IF fn = "var" THEN Keys \cup DerivedKeys(env)
+               ELSE IF fn = "var_unix" THEN {k \in Keys \cup DerivedKeys(env) : \A x \in 1..Len(k) : k[x] # 0}   \* a &UnixStr holds no NUL
+               ELSE {<<>>})
     /\ st = MkStack(argv, env, aux)
     /\ heap = MkHeap(argv, env)
     /\ pc = "resolve"
@@ -164,6 +177,8 @@ AuxLoop ==
             /\ NoReads
             /\ UNCHANGED <<coll, akey>>
     /\ UNCHANGED <<kase, argc, argvp, envp, out>>
+\* second repair: `if key contains '=' { return Missing }` - a name ends at the first '='
+KeyHasEq == Version \in {"fixed", "noterm"} /\ \E k \in 1..Len(key) : key[k] = EQ
 \* main(): the call under study
 Main ==
     /\ pc = "main"
@@ -171,8 +186,9 @@ Main ==
     /\ off' = 0 /\ it' = 0
     /\ pc' = CASE fn = "boot" -> "done"
                [] fn = "args_os" -> "args_next"
-               [] fn \in {"var", "var_unix"} -> "var_entry"
-    /\ UNCHANGED <<kase, argc, argvp, envp, akey, coll, out>>
+               [] fn \in {"var", "var_unix"} -> IF KeyHasEq THEN "done" ELSE "var_entry"
+    /\ out' = IF fn \in {"var", "var_unix"} /\ KeyHasEq THEN Missing ELSE out
+    /\ UNCHANGED <<kase, argc, argvp, envp, akey, coll>>
 \* ArgsOs::next: if ind < num_args { arg = *(arg_v + ind); ind += 1; if arg.is_null() None else Some(from_ptr(arg)) } else None
 \* (off = ind; from_ptr = strlen scan of the heap, modelled as one step reading up to the terminator)
 ArgsNext ==
@@ -200,7 +216,8 @@ VarEntry ==
 \* the key as the callee sees it: var gets a &str (pointer + length, no terminator),
 \* var_unix a &UnixStr (terminated)
 KeyAt(i) == IF i <= Len(key) THEN key[i] ELSE 0    \* i is 1-based; position Len+1 is var_unix's NUL
-EntryAt(i) == heap[st[envp + off] + i - 1]
+\* (a load outside the picture delivers whatever lies there - ReadsInBounds reports it)
+EntryAt(i) == IF st[envp + off] + i - 1 \in 1..Len(heap) THEN heap[st[envp + off] + i - 1] ELSE 1
 \* match_up_to_str(entry, key): if key.len() == 0 return 0; loop { a = entry[it]; b = key[it];
 \*     if a != b || a == 0 return it; it += 1; if it == key.len() return it }
 \* match_up_to(key, entry): loop { a = key[it]; b = entry[it]; if a != b || a == 0 return it; it += 1 }
@@ -210,7 +227,7 @@ Match ==
        THEN /\ pc' = "matched" /\ it' = 0 /\ NoReads
        ELSE /\ rdb' = {st[envp + off] + it} /\ rdk' = {it + 1} /\ rdw' = {}
             /\ IF fn = "var"
-               THEN IF EntryAt(it + 1) # KeyAt(it + 1) \/ EntryAt(it + 1) = 0
+               THEN IF EntryAt(it + 1) # KeyAt(it + 1) \/ (Version # "noterm" /\ EntryAt(it + 1) = 0)
                     THEN pc' = "matched" /\ it' = it
                     ELSE IF it + 1 = Len(key) THEN pc' = "matched" /\ it' = it + 1
                                               ELSE pc' = "match" /\ it' = it + 1
